@@ -16,6 +16,9 @@ def run():
             "TOCTOU between the existence check and rename/copy is outside the claim",
         ],
         outside=["cross-device behaviour of the real rename", "TOCTOU races"])
+    import oblig
+    ctx0 = oblig.Ctx()
+    oblig.install_battery(rep, ctx0, ["c18_battery"])
     src, _ = e1.prepare()
     fn = e1.source_of(src, "dedupe.rs", FUNCS)
     specs = [dict(harness="fs_move", name="execute(Move) never overwrites / deletes before copy complete",
@@ -28,7 +31,7 @@ def run():
     from obligations import C18_e2
     from common import Inconclusive, Obligation
     try:
-        C18_e2.add(rep)
+        C18_e2.add(rep, ctx0)
     except Inconclusive as ex:
         o = Obligation("move_target mapping", "E2 mirsym/z3")
         o.verdict, o.detail = "inconclusive", str(ex)
